@@ -314,8 +314,7 @@ def startRelayOne (n : Node) (c : Nat) (vpnIp : Addr) (v1 : Bool) (relay : Addr)
   else match n.queryVpnAddr relay with
   | none => ({ n with pending := if n.pending.contains relay then n.pending else n.pending ++ [relay] }, c, [Out.handshake relay])
   | some rh =>
-    if !rh.remoteValid then
-      ({ n with pending := if n.pending.contains relay then n.pending else n.pending ++ [relay] }, c, [Out.handshake relay])
+    if !rh.remoteValid then (n, c, [Out.handshake relay])   -- f.Handshake: a tunnel exists, nothing is started
     else match rh.byAddr vpnIp with
     | none =>
       match addRelay n c rh.id vpnIp 0 nebula_TerminalType nebula_Requested with
